@@ -38,6 +38,30 @@ Definition list_response_keys {K A} (f : K -> A) (keys : list K) (ipp_s page_s :
   | Page pc lo hi => ROk (Z.of_nat (length keys)) pc (map f (slice lo hi keys))
   end.
 
+(* ShapeKeys, literally: Items = make([]T, m) (m zero values), then `for i, k := range page { Items[i] = f k }`
+   (index out of range -> panic). The code allocates AFTER paginate (m = len(page)); alloc_before = true is the
+   variant that allocates while the keys are still the whole list. *)
+Fixpoint fill {K A} (f : K -> A) (page : list K) (arr : list A) : option (list A) :=
+  match page, arr with
+  | [], _ => Some arr
+  | k :: page', _ :: arr' => option_map (cons (f k)) (fill f page' arr')
+  | _ :: _, [] => None
+  end.
+
+Definition list_response_alloc {K A} (zero : A) (f : K -> A) (alloc_before : bool)
+    (keys : list K) (ipp_s page_s : list Z) : response A :=
+  match paginate (Z.of_nat (length keys)) ipp_s page_s with
+  | Rejected => RBad
+  | Panics => RPanic
+  | Page pc lo hi =>
+      let page := slice lo hi keys in
+      let m := if alloc_before then length keys else length page in
+      match fill f page (repeat zero m) with
+      | Some items => ROk (Z.of_nat (length keys)) pc items
+      | None => RPanic
+      end
+  end.
+
 Inductive shape := ShapeItems | ShapeKeys.
 
 (* the list endpoints: (code used by the driver, route under /v3, handler, shape). The driver's go/ast inventory of
@@ -73,6 +97,6 @@ Fixpoint iota (start : Z) (n : nat) : list Z :=
 Definition endpoint_response (ep n : Z) (ipp_s page_s : list Z) : option (response Z) :=
   match shape_of ep with
   | Some ShapeItems => Some (list_response (iota 0 (Z.to_nat n)) ipp_s page_s)
-  | Some ShapeKeys => Some (list_response_keys (fun k => k) (iota 0 (Z.to_nat n)) ipp_s page_s)
+  | Some ShapeKeys => Some (list_response_alloc (-1) (fun k => k) false (iota 0 (Z.to_nat n)) ipp_s page_s)
   | None => None
   end.
